@@ -76,9 +76,15 @@ def int64Max : Int := 9223372036854775807
 def goAtoi (l : List Char) : Option Int :=
   let r : Option Int :=
     match l with
-    | '-' :: ds => (parseNat ds).map fun n => -(n : Int)
-    | '+' :: ds => (parseNat ds).map fun n => (n : Int)
-    | ds => (parseNat ds).map fun n => (n : Int)
+    | '-' :: ds => match parseNat ds with
+      | some n => some (-(Int.ofNat n))
+      | none => none
+    | '+' :: ds => match parseNat ds with
+      | some n => some (Int.ofNat n)
+      | none => none
+    | ds => match parseNat ds with
+      | some n => some (Int.ofNat n)
+      | none => none
   match r with
   | none => none
   | some v => if int64Min ≤ v ∧ v ≤ int64Max then some v else none
@@ -492,28 +498,32 @@ def statusTo (s : A.Status) : B.Status :=
     currentStepIndex := 0
     currentStepState := "" }
 
+/-- the `if srcSpec.Strategy.Canary != nil { … }` block of `(*Rollout).ConvertTo` -/
+def canaryTo (md : Meta) (c : A.Canary) : B.Canary :=
+  { failureThreshold := c.failureThreshold
+    disableGenerateCanaryService := c.disableGenerateCanaryService
+    steps := c.steps.map stepTo
+    trafficRoutings := c.trafficRoutings.map trRefConv
+    patch := patchConv c.patch
+    enableExtraWorkloadForCanary := !(eqFold (annGet md.annStyle) stylePartition)
+    trafficRoutingRef := if annGet md.annTR != "" then annGet md.annTR else "" }
+
+/-- the zero `v1beta1.ObjectRef` -/
+def zeroRef : Ref := { apiVersion := "", kind := "", name := "" }
+
 /-- `(*Rollout).ConvertTo` (dst = `*v1beta1.Rollout`) -/
 def rolloutTo (src : A.Rollout) : Outcome B.Rollout :=
-  match src.spec.workloadRef with
-  | none => .panic                      -- srcSpec.ObjectRef.WorkloadRef.APIVersion
-  | some w =>
-  match src.spec.strategy.canary with
-  | none => .panic                      -- srcSpec.Strategy.Canary.FailureThreshold
-  | some c =>
-    let canary : B.Canary :=
-      { failureThreshold := c.failureThreshold
-        steps := c.steps.map stepTo
-        trafficRoutings := c.trafficRoutings.map trRefConv
-        patch := patchConv c.patch
-        enableExtraWorkloadForCanary := !(eqFold (annGet src.md.annStyle) stylePartition)
-        trafficRoutingRef :=
-          if annGet src.md.annTR != "" then annGet src.md.annTR else ""
-        disableGenerateCanaryService := false }
-    .ok { md := src.md
-          spec := { workloadRef := refCopy w
-                    disabled := src.spec.disabled
-                    strategy := { paused := src.spec.strategy.paused, canary := some canary, blueGreen := none } }
-          status := statusTo src.status }
+  .ok { md := src.md
+        spec := { workloadRef := match src.spec.workloadRef with
+                    | some w => refCopy w          -- if srcSpec.ObjectRef.WorkloadRef != nil
+                    | none => zeroRef
+                  disabled := src.spec.disabled
+                  strategy := { paused := src.spec.strategy.paused
+                                canary := match src.spec.strategy.canary with
+                                  | some c => some (canaryTo src.md c)   -- if srcSpec.Strategy.Canary != nil
+                                  | none => none
+                                blueGreen := none } }
+        status := statusTo src.status }
 
 /-! ## Rollout: v1beta1 → v1alpha1 -/
 
@@ -537,30 +547,41 @@ def statusFrom (s : B.Status) : A.Status :=
       | none => none
       | some cs => some (canaryStatusConv cs) }
 
+/-- the `if srcV1beta1.Spec.Strategy.Canary != nil { … }` block of `(*Rollout).ConvertFrom`: spec part -/
+def canaryFrom (c : B.Canary) : A.Canary :=
+  { failureThreshold := c.failureThreshold
+    disableGenerateCanaryService := c.disableGenerateCanaryService
+    steps := c.steps.map stepFrom
+    trafficRoutings := c.trafficRoutings.map trRefConv
+    patch := patchConv c.patch }
+
+/-- … and its annotation part (`dst.Annotations[RolloutStyleAnnotation] = …` etc.) -/
+def mdFrom (md : Meta) (c : B.Canary) : Meta :=
+  let md1 : Meta :=
+    if c.enableExtraWorkloadForCanary then { md with annStyle := some (lowerAscii styleCanary) }
+    else { md with annStyle := some (lowerAscii stylePartition) }
+  if c.trafficRoutingRef != "" then { md1 with annTR := some c.trafficRoutingRef } else md1
+
+/-- `!IsEmptyRelease() && !IsCanaryStragegy()` (short-circuit: `IsCanaryStragegy`, which
+    dereferences `Canary`, is only evaluated for a non-empty strategy) -/
+def blueGreenOnly (r : B.Strategy) : Outcome Bool :=
+  if !r.isEmptyRelease then (r.isCanaryStrategy).bind fun b => .ok (!b) else .ok false
+
 /-- `(*Rollout).ConvertFrom` (src = `*v1beta1.Rollout`, dst fresh) -/
 def rolloutFrom (src : B.Rollout) : Outcome A.Rollout :=
-  (src.spec.strategy.isCanaryStrategy).bind fun isCanary =>
-  if !isCanary then
+  (blueGreenOnly src.spec.strategy).bind fun bg =>
+  if bg then
     -- only v1beta1 supports bluegreen strategy: ObjectMeta only
     .ok { md := src.md, spec := A.Spec.zero, status := A.Status.zero }
   else
-  match src.spec.strategy.canary with
-  | none => .panic                      -- srcV1beta1.Spec.Strategy.Canary.FailureThreshold
-  | some c =>
-    let canary : A.Canary :=
-      { failureThreshold := c.failureThreshold
-        steps := c.steps.map stepFrom
-        trafficRoutings := c.trafficRoutings.map trRefConv
-        patch := patchConv c.patch
-        disableGenerateCanaryService := false }
-    let md1 : Meta :=
-      if c.enableExtraWorkloadForCanary then { src.md with annStyle := some (lowerAscii styleCanary) }
-      else { src.md with annStyle := some (lowerAscii stylePartition) }
-    let md2 : Meta :=
-      if c.trafficRoutingRef != "" then { md1 with annTR := some c.trafficRoutingRef } else md1
-    .ok { md := md2
+    .ok { md := match src.spec.strategy.canary with
+            | some c => mdFrom src.md c            -- if srcV1beta1.Spec.Strategy.Canary != nil
+            | none => src.md
           spec := { workloadRef := some (refCopy src.spec.workloadRef)
-                    strategy := { paused := src.spec.strategy.paused, canary := some canary }
+                    strategy := { paused := src.spec.strategy.paused
+                                  canary := match src.spec.strategy.canary with
+                                    | some c => some (canaryFrom c)
+                                    | none => none }
                     rolloutID := ""
                     disabled := src.spec.disabled }
           status := statusFrom src.status }
@@ -569,7 +590,7 @@ def rolloutFrom (src : B.Rollout) : Outcome A.Rollout :=
 
 /-- spec.releasePlan part of `(*BatchRelease).ConvertTo` -/
 def planTo (ann : Option String) (p : ReleasePlan) : ReleasePlan :=
-  let s0 : String := ""
+  let s0 : String := p.rollingStyle          -- RollingStyle: RollingStyleType(srcSpec.ReleasePlan.RollingStyle)
   let s1 := if eqFold (annGet ann) stylePartition then stylePartition else s0
   let s2 := if eqFold (annGet ann) styleCanary then styleCanary else s1
   let s3 := if eqFold (annGet ann) styleBlueGreen then styleBlueGreen else s2
@@ -597,12 +618,12 @@ def brStatusTo (s : A.BRStatus) : B.BRStatus :=
 
 /-- `(*BatchRelease).ConvertTo` -/
 def brTo (src : A.BatchRelease) : Outcome B.BatchRelease :=
-  match src.spec.workloadRef with
-  | none => .panic                      -- srcSpec.TargetRef.WorkloadRef.APIVersion
-  | some w =>
-    .ok { md := src.md
-          spec := { workloadRef := refCopy w, plan := planTo src.md.annStyle src.spec.plan }
-          status := brStatusTo src.status }
+  .ok { md := src.md
+        spec := { workloadRef := match src.spec.workloadRef with
+                    | some w => refCopy w          -- if srcSpec.TargetRef.WorkloadRef != nil
+                    | none => zeroRef
+                  plan := planTo src.md.annStyle src.spec.plan }
+        status := brStatusTo src.status }
 
 /-- spec.releasePlan part of `(*BatchRelease).ConvertFrom` -/
 def planFrom (p : ReleasePlan) : ReleasePlan :=
